@@ -57,6 +57,7 @@ pub enum Inp {
     EEB(El, El, bool),
     F(Fq),
     EBits(El, Vec<bool>),
+    FF(Fq, Fq),
 }
 #[derive(Clone, Debug)]
 pub enum Out {
@@ -197,9 +198,23 @@ fn fbool(i: &Inp) -> bool {
 }
 fn f1(i: &Inp) -> Fq {
     match i {
-        Inp::F(x) => *x,
+        Inp::F(x) | Inp::FF(x, _) => *x,
         _ => panic!("harness: wrong input kind"),
     }
+}
+fn f2(i: &Inp) -> Fq {
+    match i {
+        Inp::FF(_, y) => *y,
+        _ => panic!("harness: wrong input kind"),
+    }
+}
+/// lazily-encoded element variable (state `Encoding`): nothing is decoded until forced
+pub fn lazy_w(cs: &CS, x: &Fq) -> Result<ElementVar, SynthesisError> {
+    let x = *x;
+    AllocVar::<Fq, Fq>::new_witness(cs.clone(), || Ok(x))
+}
+fn native_pair(i: &Inp) -> Option<(El, El)> {
+    Some((dec(&f1(i).to_bytes_le()).ok()?, dec(&f2(i).to_bytes_le()).ok()?))
 }
 
 fn affine_bits(e: &El) -> (Vec<bool>, Vec<bool>) {
@@ -272,6 +287,19 @@ pub fn gadgets() -> Vec<Gadget> {
     g!(v, "conditional_enforce_equal", "EEB", false, |cs, i| { let gd = wb(cs, fbool(i))?; raw(cs, &e1(i))?.conditional_enforce_equal(&raw(cs, &e2(i))?, &gd)?; Ok(OutVar::Unit) }, |i| if !fbool(i) || e1(i) == e2(i) { Some(Out::Unit) } else { None });
     g!(v, "conditional_enforce_not_equal", "EEB", false, |cs, i| { let gd = wb(cs, fbool(i))?; raw(cs, &e1(i))?.conditional_enforce_not_equal(&raw(cs, &e2(i))?, &gd)?; Ok(OutVar::Unit) }, |i| if !fbool(i) || e1(i) != e2(i) { Some(Out::Unit) } else { None });
     g!(v, "conditionally_select", "EEB", false, |cs, i| { let gd = wb(cs, fbool(i))?; Ok(OutVar::E(ElementVar::conditionally_select(&gd, &raw(cs, &e1(i))?, &raw(cs, &e2(i))?)?)) }, |i| Some(Out::E(if fbool(i) { e1(i) } else { e2(i) })));
+    // --- equality family on operands that are both still undecoded encodings (valid or not)
+    g!(v, "is_eq (both lazy encodings)", "FF", true, |cs, i| Ok(OutVar::B(lazy_w(cs, &f1(i))?.is_eq(&lazy_w(cs, &f2(i))?)?)), |i| native_pair(i).map(|(a, bb)| Out::B(a == bb)));
+    g!(v, "enforce_equal (both lazy encodings)", "FF", true, |cs, i| { lazy_w(cs, &f1(i))?.enforce_equal(&lazy_w(cs, &f2(i))?)?; Ok(OutVar::Unit) }, |i| native_pair(i).and_then(|(a, bb)| if a == bb { Some(Out::Unit) } else { None }));
+    g!(v, "enforce_not_equal (both lazy encodings)", "FF", true, |cs, i| { lazy_w(cs, &f1(i))?.enforce_not_equal(&lazy_w(cs, &f2(i))?)?; Ok(OutVar::Unit) }, |i| native_pair(i).and_then(|(a, bb)| if a != bb { Some(Out::Unit) } else { None }));
+    g!(v, "conditionally_select (both lazy encodings)", "FF", true, |cs, i| { let gd = wb(cs, true)?; Ok(OutVar::E(ElementVar::conditionally_select(&gd, &lazy_w(cs, &f1(i))?, &lazy_w(cs, &f2(i))?)?)) }, |i| native_pair(i).map(|(a, _)| Out::E(a)));
+    g!(v, "lazy + lazy", "FF", true, |cs, i| Ok(OutVar::E(lazy_w(cs, &f1(i))? + lazy_w(cs, &f2(i))?)), |i| native_pair(i).map(|(a, bb)| Out::E(a + bb)));
+    // --- the same allocation forced by different first operations
+    g!(v, "new_input<Element> forced by value()", "E", true, |cs, i| { let e = e1(i); let var = ElementVar::new_input(cs.clone(), || Ok(e))?; let _ = var.value(); Ok(OutVar::E(var)) }, |i| Some(Out::E(e1(i))));
+    g!(v, "new_input<Element> forced by compress_to_field() then value()", "E", true, |cs, i| { let e = e1(i); let var = ElementVar::new_input(cs.clone(), || Ok(e))?; let _ = var.compress_to_field()?; let _ = var.value(); Ok(OutVar::E(var)) }, |i| Some(Out::E(e1(i))));
+    g!(v, "new_witness<Fq> forced by value()", "F", true, |cs, i| { let var = lazy_w(cs, &f1(i))?; let _ = var.value(); Ok(OutVar::E(var)) }, |i| dec(&f1(i).to_bytes_le()).ok().map(Out::E));
+    g!(v, "new_witness<Fq> forced by negate()", "F", true, |cs, i| Ok(OutVar::E(lazy_w(cs, &f1(i))?.negate()?)), |i| dec(&f1(i).to_bytes_le()).ok().map(|e| Out::E(-e)));
+    g!(v, "new_witness<Fq> forced by double()", "F", true, |cs, i| Ok(OutVar::E(lazy_w(cs, &f1(i))?.double()?)), |i| dec(&f1(i).to_bytes_le()).ok().map(|e| Out::E(e + e)));
+    g!(v, "new_witness<Fq> forced by to_bits_le()", "F", true, |cs, i| { let var = lazy_w(cs, &f1(i))?; let _ = var.to_bits_le()?; Ok(OutVar::E(var)) }, |i| dec(&f1(i).to_bytes_le()).ok().map(Out::E));
     // --- bit / byte decompositions of the held representative
     g!(v, "to_bits_le", "E", false, |cs, i| Ok(OutVar::Bits(raw(cs, &e1(i))?.to_bits_le()?)), |i| { let (mut x, y) = affine_bits(&e1(i)); x.extend(y); Some(Out::Bits(x)) });
     g!(v, "to_bytes", "E", false, |cs, i| Ok(OutVar::Bytes(raw(cs, &e1(i))?.to_bytes()?)), |i| {
